@@ -43,6 +43,17 @@ def _mk(base):
         def _get_mock_data(self):
             return self._mock_data_v if self._mock_data_v is not None else dict()
 
+        def advance_time_and_run(self, delta=1.0):
+            """As the base class, but an exception raised in a loop callback is never lost: the base class only looks at
+            the recorded exception when the loop was stopped before the sleep completed, which a zero-length advance
+            always wins."""
+            super().advance_time_and_run(delta)
+            if getattr(self, '_exception', None):
+                ctx = self._exception
+                self._exception = None
+                exc = ctx.get('exception') if isinstance(ctx, dict) else None
+                raise exc if exc is not None else RuntimeError('loop exception: %r' % (ctx,))
+
         # convenience
         def now_ms(self):
             return int(round(self.machine.clock.get_time() * 1000))
